@@ -317,7 +317,11 @@ func (c *c17) entity(pkg string, e *j5sgen.Entity, sk []*j5sreal.SFile) {
 		if ok {
 			for i, st := range e.Statuses {
 				v := status.Values[i+1]
-				if v.Number != int32(i+1) || v.Name != pfx+st {
+				want := pfx + st
+				if strings.HasPrefix(st, pfx) {
+					want = st // enumBuilder.addValue keeps a name that already carries the prefix
+				}
+				if v.Number != int32(i+1) || v.Name != want {
 					ok = false
 				}
 			}
